@@ -160,7 +160,7 @@ class C18(Check):
             "c1 c2 df e0 ed ef f0 f4 f5 ff} (4369) and of length 4 over {41 80 8f 90 9f a0 bf e0 ed f0 f4} (14641), random valid "
             "strings (scalars around 7f/80, 7ff/800, d7ff, e000, ffff/10000, 10ffff and inside/outside the charmap pages) and "
             "random ill-formed ones (byte mutated / deleted / inserted / truncated); at, substr (1 and 2 arguments), remove, "
-            "insert (code point) and insert (utf8 object) on all boundary strings of length <= 2 + random strings with "
+            "insert (code point), insert (utf8 object) and insert of the object into itself on all boundary strings of length <= 2 + random strings with "
             "positions/counts from {-1,0,1,2,3,4,n-1,n,n+1,INT64_MAX,INT64_MIN,null}; `tableid`: for every Unicode scalar value "
             "1..10FFFF the decoder stores exactly the packed UTF-8 bytes (checked in C++); two unguarded `atraw` cases. The "
             "implementation's canonical answer must equal the Lean model's answer textually (and the Lean spec's answer where "
@@ -184,8 +184,11 @@ class C18(Check):
         self._fast = 0
 
     # ---------------------------------------------------------------- case construction
-    def mk(self, line, dedupe=True):
-        """Case for one protocol line (the same text for probe and driver); None when already generated."""
+    def mk(self, line, dedupe=True, impl_line=None):
+        """Case for one protocol line (the same text for probe and driver unless `impl_line` is given); None when already generated."""
+        if impl_line is not None:
+            c = self.mk(line + " ", dedupe=False)      # distinct key; the trailing blank is ignored by the driver's word split
+            return Case(c.cid, line, impl_line, c.meta)
         if dedupe:
             if line in self._seen:
                 return None
@@ -431,6 +434,11 @@ class C18(Check):
             for p in ps:
                 for h2 in INSERTC_H2:
                     add("u8 insertc %s %s %s" % (h, p, h2))
+                # the object inserted into itself (`u.insert(p, u)`: the plugin hands the receiver's own vector): same
+                # result as inserting an equal copy
+                if s and b"\0" not in s:       # (a NUL ends the receiver's text but not the argument's: not the same object)
+                    c = self.mk("u8 insertc %s %s %s" % (h, p, h), impl_line="u8 insertc %s %s self" % (h, p))
+                    out.append(c)
             nops += len(out) - n0
         self.stats["u8_ops"] = {"strings": len(subset), "cases": nops}
         add("u8 tableid")
@@ -483,7 +491,8 @@ class C18(Check):
                 return r, time.time() - t
             with ThreadPoolExecutor(max_workers=2) as ex:
                 fi = ex.submit(timed, run.run_harness, hbin, lines, timeout_s=self.case_timeout())
-                fm = ex.submit(timed, run.run_driver, lines)
+                fm = ex.submit(timed, run.run_driver, lines if all(c.model_line == c.impl_line for c in cases)
+                               else ["%s %s" % (c.cid, c.model_line) for c in cases])
                 try:
                     impl, dt = fi.result()
                     impl_s += dt
